@@ -105,9 +105,57 @@ var allFuncs = []string{"intToFloat", "floatToInt", "intToString", "floatToStrin
 
 const maxPrecision = 5000 // larger precisions are excluded while finding K10b is open
 
+// genTypedShape draws a value whose derived type (vrun.TypeOfFArg) comes from a family with name
+// collisions.
+func genTypedShape(t *rapid.T, label string) vrun.FArg {
+	leaf := func(l string) vrun.FArg {
+		switch rapid.IntRange(0, 2).Draw(t, l+".leaf") {
+		case 0:
+			return vrun.FArg{T: "int", I: int64(rapid.IntRange(0, 9).Draw(t, l+".i"))}
+		case 1:
+			return vrun.FArg{T: "string", S: rapid.SampledFrom([]string{"", "a", "xyz"}).Draw(t, l+".s")}
+		}
+		return vrun.FArg{T: "bool", B: rapid.Bool().Draw(t, l+".b")}
+	}
+	var shape vrun.FArg
+	switch rapid.IntRange(0, 3).Draw(t, label+".shape") {
+	case 0: // object: id from {A, B}, one or two properties from {p, q} with leaf types
+		m := map[string]vrun.FArg{"$id": {T: "string", S: rapid.SampledFrom([]string{"A", "B"}).Draw(t, label+".id")}}
+		m["p"] = leaf(label + ".p")
+		if rapid.Bool().Draw(t, label+".q?") {
+			m["q"] = leaf(label + ".q")
+		}
+		shape = vrun.FArg{T: "map", M: m}
+	case 1: // map[string]leaf
+		shape = vrun.FArg{T: "map", M: map[string]vrun.FArg{"k": leaf(label + ".v")}}
+	case 2:
+		shape = leaf(label + ".l")
+	default:
+		shape = vrun.FArg{T: "list", L: []vrun.FArg{leaf(label + ".e")}}
+	}
+	return shape
+}
+
 func genFuncCase(t *rapid.T) *FuncCase {
 	c := &FuncCase{Law: "call"}
-	switch rapid.IntRange(0, 11).Draw(t, "law") {
+	switch rapid.IntRange(0, 12).Draw(t, "law") {
+	case 4:
+		// bindConstants with typed arguments: homogeneous items and a constant whose types are drawn
+		// from a small family in which different types share a name (objects with equal ids and
+		// different properties, maps with different value types, lists of them)
+		c.Law = "typed-bindConstants"
+		c.Fn = "bindConstants"
+		item := genTypedShape(t, "item")
+		n := rapid.IntRange(0, 3).Draw(t, "n")
+		l := vrun.FArg{T: "list", L: make([]vrun.FArg, n)}
+		for i := range l.L {
+			l.L[i] = item
+		}
+		if n == 0 {
+			l.L = []vrun.FArg{item}
+		}
+		c.Args, c.Boundary = []vrun.FArg{l, genTypedShape(t, "const")}, true
+		return c
 	case 0:
 		c.Law = "roundtrip-int"
 		v, b := genInt(t, "v")
@@ -262,6 +310,18 @@ func checkFuncCase(st *Stats, c *FuncCase) string {
 	}
 	defer func() { st.Record(c, c.Boundary, labels) }()
 	switch c.Law {
+	case "typed-bindConstants":
+		a := CallFunction(&vrun.FuncRequest{Fn: "bindConstants", Args: c.Args, Typed: true})
+		if m := basicFaults(c, "bindConstants (typed arguments)", a); m != "" {
+			return m
+		}
+		if a.OutOfDomain != "" {
+			return "harness: " + a.OutOfDomain
+		}
+		if a.Err != "" {
+			return "bindConstants returned an error for well-typed arguments: " + a.Err
+		}
+		return ""
 	case "roundtrip-int":
 		v := c.Args[0].I
 		a := call("intToString", c.Args[0])
